@@ -108,11 +108,15 @@ PENDING = {
 }
 
 OPS_CLASSES = ("reduction", "groupby-agg", "merge", "concat", "shuffle", "window", "repartition", "index", "astype")
+# classes whose programs end with a CONSUMER (column selection / filter / arithmetic / assign / index) of the operation
+NEW_CLASSES = ("indexcol", "pushdown", "indexcol", "select-after", "indexcol", "pushdown", "select-after")
+N_OLD = {"quick": 1600, "thorough": 24000}
+N_NEW = {"quick": 1120, "thorough": 11200}
 
 
 def cases(tier, seed):
     rng = random.Random(seed * 2246822519 % (2 ** 31) + 42)
-    n = 1600 if tier == "quick" else 24000
+    n = N_OLD[tier]
     j = 0
     for i in range(n):
         if i % 5 < 2:
@@ -120,6 +124,9 @@ def cases(tier, seed):
         else:
             yield {"src": "ops", "klass": OPS_CLASSES[j % len(OPS_CLASSES)], "cs": rng.randrange(2 ** 31)}
             j += 1
+    rng = random.Random(seed * 2654435761 % (2 ** 31) + 4242)
+    for i in range(N_NEW[tier]):
+        yield {"src": "ops", "klass": NEW_CLASSES[i % len(NEW_CLASSES)], "cs": rng.randrange(2 ** 31)}
 
 
 def shard_setup(tier, seed):
@@ -142,11 +149,18 @@ def build_ops(cs, klass):
     kind = rng.choice(F.INDEX_KINDS)
     pdf = F.rand_frame(cs, nmax=40, index=kind, cols="wide")
     pdesc = F.rand_partition_desc(rng, len(pdf), True)
-    ddf = F.partition(pdf, pdesc)
+    ddf = F.partition(pdf, pdesc) if klass != "indexcol" else None
     opdf = F.rand_frame(cs + 7, nmax=25, index=kind, cols="wide")
     odesc = F.rand_partition_desc(rng, len(opdf), True)
     oddf = F.partition(opdf, odesc)
     desc = Q.gen_program(rng, klass=klass)
+    if klass == "indexcol":
+        # the program names its own index: dtype int / datetime / str / categorical, unnamed / named / named like a column
+        pdf = Q.prepare_frame(desc, pdf, cs)
+        ix = desc["ix"]
+        kind = "%s:%s:%s%s" % (ix["dtype"], "unnamed" if ix["name"] is None else "named=%s" % ix["name"], ix["order"],
+                               ":column-called-index" if ix["colindex"] else "")
+        ddf = F.partition(pdf, pdesc)
     return {"pdf": pdf, "ddf": ddf, "opdf": opdf, "oddf": oddf, "desc": desc, "kind": kind, "pdesc": pdesc, "odesc": odesc}
 
 
@@ -308,6 +322,89 @@ def mechanism_label(case, desc, klass, facet, prefix):
     return "%s:%s" % (klass, facet)
 
 
+CONSUMER_CLASSES = ("indexcol", "pushdown", "select-after")
+
+
+def raises_label(desc, tail, exc, site):
+    """label of a dask exception in a consumer-class program whose inner program computes"""
+    from vf.gen import c42_programs as Q
+
+    return "%s:raises:%s" % (Q.consumer_head(desc, tail), site)
+_RESET_TAILS = ("reset-getcol", "reset-getcols", "s-reset-getcol")
+
+
+def count_consumer_program(ctx, desc, res, c):
+    """observability of the consumer classes: per class, per move / operation kind, per consumer kind, per index variant,
+    and whether ``simplify`` rewrote the expression at all (a rule fired)"""
+    k = desc["class"]
+    ctx.count({"indexcol": "indexcol_programs_checked", "pushdown": "pushdown_programs_checked",
+               "select-after": "select_after_programs_checked"}[k])
+    ctx.count("tail:" + desc["tail"]["op"])
+    ctx.distinct("consumer_kinds", desc["tail"]["op"])
+    if k == "indexcol":
+        for mv in desc["moves"]:
+            ctx.count("move:" + mv["op"])
+        ix = desc["ix"]
+        name = "unnamed" if ix["name"] is None else "named-index" if ix["name"] == "index" else \
+            "named-like-column" if ix["name"] in ("a", "c") else "named"
+        ctx.count("index:" + name)
+        ctx.count("index-dtype:" + ix["dtype"])
+        ctx.distinct("index_variants", [ix["dtype"], name, ix["order"], ix["colindex"]])
+        if "(index-column)" in desc["form"]:
+            ctx.count("consumer_reads_former_index_column")
+        if "col" in desc["start"] and desc["moves"] and desc["moves"][0]["op"] == "reset_index" and not desc["moves"][0]["drop"]:
+            ctx.count("series_reset_index_then_consumer")
+    elif k == "pushdown":
+        ctx.count("pushdown:" + desc["op"])
+        ctx.distinct("pushdown_ops", desc["op"])
+    else:
+        ctx.count("select-after:" + desc["inner"]["class"])
+    try:
+        e = res.expr
+        if e.simplify()._name != e._name:
+            ctx.count("simplify_rewrote:" + k)
+    except Exception:  # noqa: BLE001
+        pass
+
+
+def values_violation(desc, c, run, val, full_ref, ctx):
+    """-> (how, (kind, message), resolved tail) | None.  indexcol / pushdown: the computed value against pandas running the
+    same program (row order not compared after set_index / an index shuffle, the index not compared once reset_index made
+    it partition-local; dtypes are the meta monitor's business).  select-after: against pandas applying the same consumer
+    to the COMPUTED inner result (row multisets) - the consumer must not change what the inner program yields."""
+    from vf.gen import c42_programs as Q
+    from vf.gen import frames as F
+
+    k = desc["class"]
+    pdf, ddf = c["pdf"], c["ddf"]
+    if desc.get("novalues"):
+        return None
+    if k == "indexcol":
+        ctx.count("values_compared_with_pandas")
+        m = F.compare(val, full_ref, ordered=not desc["unordered"], check_dtype=False, check_index=not desc["local"])
+        return ("vs-pandas", m, desc["tail"]) if m else None
+    if k == "pushdown":
+        try:
+            tt = Q.resolve_tail(desc["tail"], run(pdf, False, c["opdf"], upto="inner"))
+        except Exception:  # noqa: BLE001
+            return None
+        ctx.count("values_compared_with_pandas")
+        m = F.compare(val, full_ref, ordered=not desc.get("unordered"), check_dtype=False, check_index=tt["op"] not in _RESET_TAILS)
+        return ("vs-pandas", m, tt) if m else None
+    try:
+        vi = run(ddf, True, c["oddf"], upto="inner").compute(scheduler="sync")
+        tt = Q.resolve_tail(desc["tail"], vi)
+        exp = Q.apply_tail(tt, vi, False)
+    except Exception:  # noqa: BLE001
+        return None
+    ctx.count("values_compared_with_unconsumed_result")
+    inner = desc["inner"]
+    # (a merge on columns defines no index: dask numbers the rows of every output partition)
+    keep_index = tt["op"] not in _RESET_TAILS and not (inner["class"] == "merge" and inner["on"] != "index")
+    m = F.compare(val, exp, ordered=False, check_dtype=False, check_index=keep_index)
+    return ("vs-unconsumed", m, tt) if m else None
+
+
 def run_case(case, ctx):
     import pandas as pd
 
@@ -331,10 +428,10 @@ def run_case(case, ctx):
 
             c = build_ops(case["cs"], case["klass"])
             desc = c["desc"]
-            run = lambda frame, is_dask, other, upto=None: Q.apply(desc, frame, is_dask, other=other)  # noqa: E731
+            run = lambda frame, is_dask, other, upto=None: Q.apply(desc, frame, is_dask, other=other, upto=upto)  # noqa: E731
             klass = "%s:%s" % (desc["class"], desc["form"])
             text = Q.describe(desc)
-            ctx.op(klass)
+            ctx.op(klass if desc["class"] not in CONSUMER_CLASSES else desc["class"])
         pdf, ddf = c["pdf"], c["ddf"]
         ctx.sig = [text, c["kind"], c["pdesc"], c.get("odesc"), len(pdf), case["cs"] if len(pdf) else 0]
         if desc.get("need_known") and not ddf.known_divisions:
@@ -357,6 +454,31 @@ def run_case(case, ctx):
         except Exception as e:  # noqa: BLE001
             if through_shim(e):
                 return ctx.envlimited("%s: %s" % (type(e).__name__, str(e)[:80]))
+            if case["src"] == "ops" and desc["class"] in CONSUMER_CLASSES:
+                # no other property runs these programs.  pandas accepts the program and dask computes it WITHOUT its
+                # final consumer: the exception belongs to the consumer (a column selection, a filter ... and what the
+                # optimizer makes of it) and is reported here
+                with warnings.catch_warnings():
+                    warnings.simplefilter("ignore")
+                    try:
+                        observe(run(ddf, True, c["oddf"], upto="inner"))
+                        inner_ok = True
+                    except CaseTimeout:
+                        raise
+                    except Exception:  # noqa: BLE001
+                        inner_ok = False
+                if inner_ok:
+                    from vf.core.ctx import exc_label
+
+                    try:
+                        tt = Q.resolve_tail(desc["tail"], run(pdf, False, c["opdf"], upto="inner"))
+                    except Exception:  # noqa: BLE001
+                        tt = None
+                    ctx.count("consumer_exceptions_reported")
+                    return ctx.violation(raises_label(desc, tt, e, exc_label(e)), "%s: %s" % (type(e).__name__, str(e)[:300]),
+                                         program=desc, tail=tt, index_kind=c["kind"], partitioning=c["pdesc"],
+                                         second_frame_partitioning=c.get("odesc"), rows=len(pdf), case_seed=case["cs"],
+                                         traceback="".join(__import__("traceback").format_exception(type(e), e, e.__traceback__))[-2500:])
             ctx.count("dask_raised_owned_by_other_property")
             return ctx.unsupported("dask raised %s (reported by the owning property)" % type(e).__name__)
         m = check(res, val, parts)
@@ -377,19 +499,93 @@ def run_case(case, ctx):
     ctx.count("empty_partitions_checked", sum(1 for p in (parts or ()) if hasattr(p, "__len__") and len(p) == 0))
     ctx.count("public_views_checked")
     ctx.count("c36_pipelines_checked" if case["src"] == "c36" else "ops_programs_checked")
+    consumer = case["src"] == "ops" and desc["class"] in CONSUMER_CLASSES
+    if consumer:
+        count_consumer_program(ctx, desc, res, c)
     ctx.count({pd.DataFrame: "frame_results", pd.Series: "series_results"}.get(type(val), "index_results" if isinstance(val, pd.Index) else "scalar_results"))
     ctx.distinct("program_forms", klass if case["src"] == "ops" else desc["classes"])
     nparts = getattr(res, "npartitions", None)
     ctx.nontrivial = (nparts or 0) >= 2 or (nparts is None and ddf.npartitions >= 2) or \
         (not hasattr(res, "partitions") and ddf.npartitions >= 2)
+    detail = {"program": desc if case["src"] == "ops" else desc["steps"], "index_kind": c["kind"], "partitioning": c["pdesc"],
+              "second_frame_partitioning": c.get("odesc"), "rows": len(pdf), "case_seed": case["cs"],
+              "meta": repr(getattr(res, "_meta", None))[:300]}
+    if m is None and consumer:
+        # the meta agrees: the VALUES of the consumer classes (pandas on the same program, or - select-after - the same
+        # consumer applied by pandas to the computed un-consumed inner result)
+        with warnings.catch_warnings():
+            warnings.simplefilter("ignore")
+            try:
+                vm = values_violation(desc, c, run, val, full_ref, ctx)
+            except CaseTimeout:
+                raise
+        if vm is not None:
+            how, (vk, vmsg) = vm[0], vm[1]
+            detail["tail"] = vm[2]
+            return ctx.violation("%s:%s:%s" % (Q.consumer_head(desc, vm[2]), how, vk), vmsg, **detail)
     if m is None:
         ctx.sample = {"program": text[:500], "index": c["kind"], "partitioning": c["pdesc"], "result_kind": type(val).__name__,
                       "result_npartitions": nparts, "meta": repr(getattr(res, "_meta", None))[:200]}
         return
     facet, msg = m
-    detail = {"program": desc if case["src"] == "ops" else desc["steps"], "index_kind": c["kind"], "partitioning": c["pdesc"],
-              "second_frame_partitioning": c.get("odesc"), "rows": len(pdf), "case_seed": case["cs"],
-              "meta": repr(getattr(res, "_meta", None))[:300]}
+    label_desc = desc
+    if consumer:
+        # does the program WITHOUT its final consumer already disagree with its meta?  then the mechanism is the inner
+        # operation's (for select-after: labelled exactly as the older class labels it), and the consumer only inherits it
+        with warnings.catch_warnings():
+            warnings.simplefilter("ignore")
+            try:
+                r2 = run(ddf, True, c["oddf"], upto="inner")
+                v2, p2 = observe(r2)
+                m2 = check(r2, v2, p2)
+                if m2 is not None and m2[0].startswith("meta-dtype("):
+                    try:
+                        o0 = c["opdf"].iloc[:0] if c.get("opdf") is not None else None
+                        m2 = check(r2, v2, p2, run(pdf.iloc[:0], False, o0, upto="inner"), run(pdf, False, c["opdf"], upto="inner"))
+                    except CaseTimeout:
+                        raise
+                    except Exception:  # noqa: BLE001
+                        pass
+            except CaseTimeout:
+                raise
+            except Exception:  # noqa: BLE001
+                m2 = None
+        if m2 is not None:
+            facet, msg = m2
+            detail["disagrees_without_the_final_consumer"] = True
+            if desc["class"] == "select-after":
+                label_desc = desc["inner"]
+                klass = "%s:%s" % (label_desc["class"], label_desc["form"])
+            elif desc["class"] == "pushdown":
+                klass = "pushdown:%s" % desc["op"]
+            else:
+                # the first move after which the meta disagrees names the mechanism
+                k, before = len(desc["moves"]), None
+                with warnings.catch_warnings():
+                    warnings.simplefilter("ignore")
+                    for j in range(0, len(desc["moves"])):
+                        try:
+                            r3 = run(ddf, True, c["oddf"], upto=j)
+                            if j > 0:
+                                v3, p3 = observe(r3)
+                                m3 = check(r3, v3, p3)
+                                if m3 is not None:
+                                    k, (facet, msg) = j, m3
+                                    break
+                            before = r3
+                        except CaseTimeout:
+                            raise
+                        except Exception:  # noqa: BLE001
+                            break
+                bk = {1: "series", 2: "frame"}.get(getattr(before, "ndim", None), "index") if before is not None else "object"
+                klass = "indexcol:%s.%s:%s" % (bk, desc["moves"][k - 1]["op"], desc["form"].rsplit(":", 1)[1])
+                detail["shortest_prefix"] = desc["moves"][:k]
+        else:
+            try:
+                detail["tail"] = Q.resolve_tail(desc["tail"], run(pdf, False, c["opdf"], upto="inner"))
+            except Exception:  # noqa: BLE001
+                detail["tail"] = None
+            klass = Q.consumer_head(desc, detail["tail"])
     if case["src"] == "c36":
         # the SHORTEST prefix of the pipeline whose meta already disagrees names the operation class and the facet
         # (later steps only inherit the disagreement, possibly under another facet)
@@ -423,4 +619,4 @@ def run_case(case, ctx):
         head = c36.expr_heads(desc["steps"][k - 1]) if fam.split(":")[0] in ("series", "filter", "assign") else None
         klass = "c36:%s%s" % (fam, "[%s]" % head if head and fam.split(":")[0] == "series" else "")
         detail["shortest_prefix"] = desc["steps"][:k]
-    ctx.violation(mechanism_label(case, desc, klass, facet, detail.get("shortest_prefix")), msg, **detail)
+    ctx.violation(mechanism_label(case, label_desc, klass, facet, detail.get("shortest_prefix")), msg, **detail)
